@@ -197,6 +197,23 @@ func (mc *Chain) processVerifyBlock(ctx context.Context, b *block.Block) error {
 		}()
 	}
 
+	// Tickets attached to a received block count towards its notarization (also when the block
+	// arrives before its round has started and is only queued for verification), so they must be
+	// from distinct miners of the round and carry valid signatures on the block hash
+	// (MergeVerificationTickets does not verify the block's own tickets).
+	if own := b.GetVerificationTickets(); len(own) > 0 {
+		seen := make(map[string]struct{}, len(own))
+		for _, vt := range own {
+			if _, ok := seen[vt.VerifierID]; ok {
+				return common.NewError("verify_block", "duplicate verification tickets attached to the block")
+			}
+			seen[vt.VerifierID] = struct{}{}
+		}
+		if err := mc.VerifyTickets(ctx, b.Hash, own, b.Round); err != nil {
+			return err
+		}
+	}
+
 	mr := mc.GetMinerRound(b.Round)
 	if mr == nil {
 		logging.Logger.Info("verify block - got block proposal before starting round",
@@ -241,22 +258,6 @@ func (mc *Chain) processVerifyBlock(ctx context.Context, b *block.Block) error {
 				zap.Int64("block RRS", b.GetRoundRandomSeed()),
 				zap.Int64("round RRS", mr.GetRandomSeed()))
 			//mc.startRound(ctx, mr, b.GetRoundRandomSeed())
-		}
-	}
-
-	// Tickets attached to a received block count towards its notarization below, so they must be
-	// from distinct miners of the round and carry valid signatures on the block hash
-	// (MergeVerificationTickets does not verify the block's own tickets).
-	if own := b.GetVerificationTickets(); len(own) > 0 {
-		seen := make(map[string]struct{}, len(own))
-		for _, vt := range own {
-			if _, ok := seen[vt.VerifierID]; ok {
-				return common.NewError("verify_block", "duplicate verification tickets attached to the block")
-			}
-			seen[vt.VerifierID] = struct{}{}
-		}
-		if err := mc.VerifyTickets(ctx, b.Hash, own, b.Round); err != nil {
-			return err
 		}
 	}
 
